@@ -28,7 +28,7 @@ ANCHORS = [("dateparser.languages.locale", "Locale.translate_search"), ("datepar
 FILL = ["The meeting is", "we met", "and then", "xyz", "report", "...", "on", "(see)", "à", "。", "\n", "at", "-", ",", ";",
         "foo bar", "№ 5", "vs.", "e.g.", "—", "«»", "I", "[", "]", "(", ")"]
 NUMS = ["12", "2015", "3", "10:45", "1/2/2015", "31.12.99", "٣", "2015-05-12", "12.05.2015", "5", "1999", "23:59:59", "१२", "１２", "0"]
-N_TEXTS = {"quick": 12, "thorough": 300}
+N_TEXTS = {"quick": 24, "thorough": 300}
 TAPS = {"splits": [], "best": [], "ts": []}
 _RECENT = []     # the last calls made before a case: part of its witness (replayed first)
 
@@ -148,8 +148,11 @@ def run_one(text, langs, adl, base):
     from dateparser.search import search_dates
 
     kw = {}
-    if base:
+    # base: False / True (RELATIVE_BASE given) / 2 (RELATIVE_BASE + NORMALIZE off) / 3 (NORMALIZE off only)
+    if base in (True, 1, 2):
         kw["settings"] = {"RELATIVE_BASE": datetime(2020, 2, 29, 12, 0)}
+    if base in (2, 3):
+        kw.setdefault("settings", {})["NORMALIZE"] = False
     TAPS["splits"][:] = []
     TAPS["best"][:] = []
     TAPS["ts"][:] = []
@@ -247,6 +250,8 @@ def run_texts(ctx, desc):
         for t in range(N_TEXTS[ctx.tier]):
             text, parts, joiner = gen_text(rnd, lang, voc, months, bylang, skips)
             base = rnd.random() < 0.5
+            if rnd.random() < 0.2:
+                base = 2 if base else 3      # the same with accent normalisation off (its own tables inside the locale)
             adl = rnd.random() < 0.5
             check_text(ctx, text, [lang], adl, base, parts, joiner)
             if t % 3 == 0 or ctx.tier == "thorough" and t % 2 == 0:
